@@ -19,6 +19,7 @@ import (
 	"math"
 	"math/rand"
 	"net/http"
+	"net/http/httptest"
 	"net/url"
 	"os"
 	"os/exec"
@@ -34,6 +35,8 @@ import (
 
 	"github.com/gobwas/glob"
 
+	"github.com/fabiolb/fabio/admin/api"
+	"github.com/fabiolb/fabio/proxy"
 	"github.com/fabiolb/fabio/route"
 
 	"verifharness/internal/vh"
@@ -606,6 +609,36 @@ func (q lookupReq) coq() string {
 
 var globCache = route.NewGlobCache(1000)
 
+// the read-only users of route.GetTable() besides Lookup: k = 0 GET /api/routes, 1 GET /api/routes?raw,
+// 2 Table.String, 3 Table.Dump, 4 the gRPC connection pool's hasTarget scan.  local = the table of the
+// calling reader for 2 and 3 (nil: the active table).  Returns a panic message, "" if none.
+const nReaders = 5
+
+func readTable(k int, local route.Table) string {
+	p, v := vh.Recover(func() {
+		t := local
+		if t == nil {
+			t = route.GetTable()
+		}
+		switch k {
+		case 0:
+			(&api.RoutesHandler{}).ServeHTTP(httptest.NewRecorder(), httptest.NewRequest("GET", "/api/routes", nil))
+		case 1:
+			(&api.RoutesHandler{}).ServeHTTP(httptest.NewRecorder(), httptest.NewRequest("GET", "/api/routes?raw", nil))
+		case 2:
+			_ = t.String()
+		case 3:
+			_ = t.Dump()
+		case 4:
+			proxy.VerifC16HasTarget("no-such-target", route.GetTable())
+		}
+	})
+	if p {
+		return fmt.Sprint(v)
+	}
+	return ""
+}
+
 // lookup returns the Coq term of the observable and whether it panicked
 func doLookup(t route.Table, q lookupReq) (string, bool, string) {
 	var tg *route.Target
@@ -699,7 +732,22 @@ func genLookups(r *rand.Rand, t route.Table, n int) []lookupReq {
 func observeBuild(r *rand.Rand, build func() (route.Table, error), nLook int) (implTerm string, lookTerms []string, human map[string]interface{}, t route.Table) {
 	var err error
 	human = map[string]interface{}{}
-	p, v := vh.Recover(func() { t, err = build() })
+	var p bool
+	var v interface{}
+	finished := make(chan bool, 1)
+	go func() {
+		p, v = vh.Recover(func() { t, err = build() })
+		finished <- true
+	}()
+	select {
+	case <-finished:
+	case <-time.After(30 * time.Second):
+		// the table build does not return: the update loop would hang as surely as it would die of a
+		// panic.  The spinning goroutine cannot be stopped; report and end the run.
+		theRun.Violation(theRun.NextID(), "route.NewTable / NewTableCustom did not return within 30 s (endless loop while the table is built)", buildInput)
+		theRun.Finish(preamble, theRun.Scale(32, 300))
+		os.Exit(0)
+	}
 	switch {
 	case p:
 		implTerm = vh.Panic
@@ -719,6 +767,16 @@ func observeBuild(r *rand.Rand, build func() (route.Table, error), nLook int) (i
 		human["build"] = "nil table without an error"
 		return vh.Err(96), nil, human, nil
 	}
+	// publish the table and let every other reader of the active table look at it first: the
+	// observations below (route order, lookups) must be those of the table NewTable returned
+	route.SetTable(t)
+	for k := 0; k < nReaders; k++ {
+		if msg := readTable(k, t); msg != "" {
+			human["reader_panic"] = fmt.Sprintf("reader %d: %s", k, msg)
+			return vh.Panic, nil, human, nil
+		}
+	}
+	route.SetTable(make(route.Table))
 	implTerm = vh.Ok(coqTobs(dumpTable(t)))
 	human["build"] = "ok"
 	var hl []string
@@ -735,7 +793,16 @@ func observeBuild(r *rand.Rand, build func() (route.Table, error), nLook int) (i
 	return implTerm, lookTerms, human, t
 }
 
+var (
+	theRun     *vh.Run
+	buildInput interface{} // what the running build was given (for the hang report)
+)
+
 func textCase(run *vh.Run, class, text string, nLook int) {
+	buildInput = text
+	if len(text) > 2000 {
+		buildInput = text[:2000]
+	}
 	e := newEnv()
 	e.addText(text)
 	impl, looks, human, _ := observeBuild(run.Rng, func() (route.Table, error) { return route.NewTable(bytes.NewBufferString(text)) }, nLook)
@@ -757,6 +824,27 @@ func textCase(run *vh.Run, class, text string, nLook int) {
 		return
 	}
 	run.Add(class, vh.App("CBuild", e.coq(), hx(text), impl, vh.List(looks)), human)
+}
+
+// a line beyond bufio.Scanner's token limit: either an error or the complete table, never a table
+// that silently lacks the rest of the configuration
+func longLineCase(run *vh.Run) {
+	text := "route add svc-a a.test/ http://10.0.0.1:80/\nroute add " + strings.Repeat("x", 70000) + " b.test/ http://10.0.0.2:80/\nroute add svc-c c.test/ http://10.0.0.3:80/"
+	var t route.Table
+	var err error
+	if p, v := vh.Recover(func() { t, err = route.NewTable(bytes.NewBufferString(text)) }); p {
+		run.Violation(run.NextID(), "route.NewTable panicked on a 70000-byte line: "+fmt.Sprint(v), nil)
+		return
+	}
+	if err == nil && (t["a.test"] == nil || t["b.test"] == nil || t["c.test"] == nil) {
+		hosts := []string{}
+		for h := range t {
+			hosts = append(hosts, h)
+		}
+		sort.Strings(hosts)
+		run.Violation(run.NextID(), "a configuration line longer than bufio.Scanner's 64 KiB token limit silently truncates the table: NewTable returned no error and a table without that line and everything after it",
+			map[string]interface{}{"text": "route add svc-a a.test/ ...\\nroute add <70000 x> b.test/ ...\\nroute add svc-c c.test/ ...", "hosts_in_table": hosts})
+	}
 }
 
 // ---------- (i) build cases ----------
@@ -804,6 +892,7 @@ func buildCases(run *vh.Run) {
 		textCase(run, class, joinLines(r, out), 4)
 	}
 	// very long lines and non-ASCII: outside the model, must still not crash
+	longLineCase(run)
 	textCase(run, "long-line", "route add svc-a a.test/ http://10.0.0.1:80/\nroute add "+strings.Repeat("x", 70000)+" a.test/ http://10.0.0.1:80/\nroute add svc-b b.test/ http://10.0.0.2:80/", 2)
 	textCase(run, "non-ascii", "route add svc-ä a.test/ http://10.0.0.1:80/ weight NaN ", 2)
 	textCase(run, "nan", "route add s a.test/ http://h/ weight NaN\nroute add s a.test/ http://h/ weight NaN\nroute add t a.test/ http://g/ weight 0.5", 3)
@@ -913,6 +1002,7 @@ func genDefs(r *rand.Rand) ([]route.RouteDef, string) {
 func customCase(run *vh.Run, class string, defs []route.RouteDef) {
 	e := defsEnv(defs)
 	cp := append([]route.RouteDef{}, defs...)
+	buildInput = fmt.Sprintf("%+v", defs)
 	impl, looks, human, _ := observeBuild(run.Rng, func() (route.Table, error) { return route.NewTableCustom(&cp) }, 4)
 	human["defs"] = fmt.Sprintf("%+v", defs)
 	var terms []string
@@ -987,7 +1077,8 @@ func bigTextEarlyError(r *rand.Rand) string {
 	for i := 0; i < 110+r.Intn(40); i++ {
 		lines = append(lines, fmt.Sprintf("route add big-%d big%d.test/p%d http://10.1.%d.%d:80/", i, i%7, i, i/200, i%200))
 	}
-	lines[1+r.Intn(3)] = pick(r, badTexts)
+	// a SYNTAX error (Parse returns before the scanner has drained the buffer), not one that addRoute finds
+	lines[1+r.Intn(3)] = pick(r, []string{"rout add x", "route add svc-a", "route add svc-a /foo", "route del", "route add svc-a a.test/ http://10.0.0.1:80/ weight abc", "garbage"})
 	return strings.Join(lines, "\n")
 }
 
@@ -1233,7 +1324,16 @@ func loopCases(run *vh.Run) {
 		`!reset![{"cmd":"route add","service":"svc-a","src":"a.test/","dst":"http://10.0.0.1:80/"}]`,
 		`[{"cmd":"route add","service":"svc-b","src":"b.test/","dst":"http://10.0.0.2:80/","weight":5e-324}]`}})
 
+	nullJob := len(jobs)
+	jobs = append(jobs, wJob{Kind: "custom", Docs: []string{
+		`!reset![{"cmd":"route add","service":"svc-a","src":"a.test/","dst":"http://10.0.0.1:80/"}]`, `null`}})
+
 	lines, done, crashLog := runDriver(run, jobs)
+	if crashLog[nullJob] != "" {
+		run.Violation(run.NextID(), "custom backend: a poll body `null` crashed the process (NewTableCustom(nil) dereferences the nil definition list; no recover in the polling goroutine): "+crashLog[nullJob], "null")
+	} else if ls := lines[nullJob]; len(ls) != 2 || len(ls[1].Table) != 1 {
+		run.Violation(run.NextID(), "custom backend: a poll body `null` did not leave the active table alone", lines[nullJob])
+	}
 	// a definition without "src" is an error (route: prefix must not be empty), whatever was polled before
 	if ls := lines[staleJob]; len(ls) == 2 {
 		reported := false
@@ -1447,11 +1547,15 @@ func schedCases(run *vh.Run) {
 		texts := make([]string, nt)
 		e := newEnv()
 		for i := range texts {
-			// same hosts and paths in every table, a different service per generation
+			// same hosts in every table, nested prefixes per host (route order matters for every
+			// lookup), a different service per generation and path
 			var lines []string
-			for k := 0; k < 1+r.Intn(3); k++ {
-				lines = append(lines, fmt.Sprintf("route add gen%d-%d %s%s http://10.0.%d.%d:80/", i, k, []string{"a.test", "*.test", ""}[k%3], []string{"/", "/foo", "/api"}[r.Intn(3)], i, k))
+			for hi, h := range []string{"a.test", "*.test", "", "b.test"}[:2+r.Intn(3)] {
+				for pi, pth := range []string{"/", "/foo", "/foo/bar", "/api"}[:2+r.Intn(3)] {
+					lines = append(lines, fmt.Sprintf("route add gen%d-%d-%d %s%s http://10.%d.%d.%d:80/", i, hi, pi, h, pth, i, hi, pi))
+				}
 			}
+			r.Shuffle(len(lines), func(a, b int) { lines[a], lines[b] = lines[b], lines[a] })
 			if r.Intn(6) == 0 {
 				lines = append(lines, pick(r, badTexts)) // an invalid text: NewTable fails, SetTable(nil)
 			}
@@ -1462,7 +1566,7 @@ func schedCases(run *vh.Run) {
 		local := map[int]route.Table{}
 		route.SetTable(make(route.Table))
 		var acts, impl, human []string
-		steps := 8 + r.Intn(10)
+		steps := 10 + r.Intn(12)
 		for s := 0; s < steps; s++ {
 			rd := r.Intn(3)
 			switch k := r.Intn(10); {
@@ -1476,13 +1580,25 @@ func schedCases(run *vh.Run) {
 				route.SetTable(nil)
 				acts = append(acts, "SNil")
 				human = append(human, "set nil")
+			case k == 4 || (k == 5 && loaded[rd]):
+				// another user of the active table (read-only by contract)
+				kind := r.Intn(nReaders)
+				var lt route.Table
+				if loaded[rd] && r.Intn(2) == 0 {
+					lt = local[rd]
+				}
+				if msg := readTable(kind, lt); msg != "" {
+					run.Violation(run.NextID(), "a reader of the active table panicked: "+msg, texts)
+				}
+				acts = append(acts, fmt.Sprintf("(SRead %d%%nat %d)", rd, kind))
+				human = append(human, fmt.Sprintf("read r%d kind %d", rd, kind))
 			case k < 6 || !loaded[rd]:
 				local[rd] = route.GetTable()
 				loaded[rd] = true
 				acts = append(acts, fmt.Sprintf("(SLoad %d%%nat)", rd))
 				human = append(human, fmt.Sprintf("load r%d", rd))
 			default:
-				q := lookupReq{host: pick(r, []string{"a.test", "b.test", "A.TEST:80"}), uri: pick(r, []string{"/", "/foo/x", "/api", "/zzz"}), globOff: r.Intn(4) == 0}
+				q := lookupReq{host: pick(r, []string{"a.test", "b.test", "A.TEST:80", "x.test"}), uri: pick(r, []string{"/", "/foo/x", "/foo/bar/x", "/api", "/zzz"}), globOff: r.Intn(4) == 0}
 				o, _, _ := doLookup(local[rd], q)
 				acts = append(acts, vh.App("SLook", vh.Nat(rd), q.coq()))
 				impl = append(impl, o)
@@ -1500,11 +1616,18 @@ func schedCases(run *vh.Run) {
 }
 
 func stress(run *vh.Run) {
+	// 4 hosts, nested prefixes per host: the service name says which generation and which depth
 	mk := func(gen string) route.Table {
 		var lines []string
 		for k := 0; k < 12; k++ {
-			lines = append(lines, fmt.Sprintf("route add %s-%d h%d.test/p%d http://10.9.%d.1:80/", gen, k, k%4, k, k))
-			lines = append(lines, fmt.Sprintf("route add %s-%d h%d.test/p%d http://10.9.%d.2:80/ weight 0.3", gen, k, k%4, k, k))
+			for _, d := range []string{"", "/deep", "/deep/er"} {
+				depth := strings.Count(d, "/")
+				lines = append(lines, fmt.Sprintf("route add %s-%d-%d h%d.test/p%d%s http://10.9.%d.1:80/", gen, k, depth, k%4, k, d, k))
+				lines = append(lines, fmt.Sprintf("route add %s-%d-%d h%d.test/p%d%s http://10.9.%d.2:80/ weight 0.3", gen, k, depth, k%4, k, d, k))
+			}
+		}
+		for h := 0; h < 4; h++ {
+			lines = append(lines, fmt.Sprintf("route add %s-root-9 h%d.test/ http://10.9.9.%d:80/", gen, h, h))
 		}
 		t, err := route.NewTable(bytes.NewBufferString(strings.Join(lines, "\n")))
 		if err != nil {
@@ -1515,7 +1638,7 @@ func stress(run *vh.Run) {
 	dur := time.Duration(run.Scale(2, 30)) * time.Second
 	var stop int32
 	var wg sync.WaitGroup
-	var mixed, lookups, generations int64
+	var mixed, lookups, generations, reads int64
 	var firstMixed atomic.Value
 	route.SetTable(mk("A"))
 	wg.Add(1)
@@ -1541,12 +1664,18 @@ func stress(run *vh.Run) {
 				gen := ""
 				for k := 0; k < 20; k++ {
 					j := rng.Intn(12)
-					req := &http.Request{Host: fmt.Sprintf("h%d.test", j%4), URL: &url.URL{Path: fmt.Sprintf("/p%d/x", j)}, Header: http.Header{}}
+					depth := rng.Intn(3)
+					req := &http.Request{Host: fmt.Sprintf("h%d.test", j%4), URL: &url.URL{Path: fmt.Sprintf("/p%d%s/x", j, []string{"", "/deep", "/deep/er"}[depth])}, Header: http.Header{}}
 					tg := t.Lookup(req, "", route.Picker["rr"], route.Matcher["prefix"], gc, rng.Intn(2) == 0)
 					atomic.AddInt64(&lookups, 1)
 					g := "none"
 					if tg != nil {
 						g = tg.Service[:1]
+						// the most specific route of the snapshot must answer
+						if want := fmt.Sprintf("%s-%d-%d", g, j, depth); tg.Service != want {
+							atomic.AddInt64(&mixed, 1)
+							firstMixed.CompareAndSwap(nil, fmt.Sprintf("reader %d: %s answered by %s, want %s (route order of the published table changed)", rd, req.URL.Path, tg.Service, want))
+						}
 					}
 					if gen == "" {
 						gen = g
@@ -1559,14 +1688,30 @@ func stress(run *vh.Run) {
 			}
 		}(rd)
 	}
+	// the other users of the active table, concurrently
+	for k := 0; k < nReaders; k++ {
+		wg.Add(1)
+		go func(k int) {
+			defer wg.Done()
+			for atomic.LoadInt32(&stop) == 0 {
+				if msg := readTable(k, nil); msg != "" {
+					firstMixed.CompareAndSwap(nil, fmt.Sprintf("table reader %d panicked: %s", k, msg))
+					atomic.AddInt64(&mixed, 1)
+				}
+				atomic.AddInt64(&reads, 1)
+				time.Sleep(200 * time.Microsecond)
+			}
+		}(k)
+	}
 	time.Sleep(dur)
 	atomic.StoreInt32(&stop, 1)
 	wg.Wait()
 	route.SetTable(make(route.Table))
 	run.Notes["stress_lookups"] = lookups
 	run.Notes["stress_tables_installed"] = generations
+	run.Notes["stress_other_reader_calls"] = reads
 	if mixed > 0 {
-		run.Violation(-1, "lookups of one reader on one GetTable() snapshot were answered from different table generations (or found nothing)", map[string]interface{}{"count": mixed, "first": firstMixed.Load()})
+		run.Violation(-1, "lookups of one reader on one GetTable() snapshot were answered from different table generations, by a less specific route, or found nothing", map[string]interface{}{"count": mixed, "first": firstMixed.Load()})
 	}
 	if lookups < 1000 || generations < 10 {
 		run.Violation(-1, "stress run too short to mean anything", map[string]interface{}{"lookups": lookups, "tables": generations})
@@ -1576,6 +1721,7 @@ func stress(run *vh.Run) {
 func main() {
 	raceReexec()
 	run := vh.Start("C02")
+	theRun = run
 	buildCases(run)
 	customCases(run)
 	schedCases(run)
